@@ -173,6 +173,12 @@ func CalcTotalSize(filePath string) ([]byte, error) {
 func CalcItemCount(filePath string) ([]byte, error) {
 	var itemCount uint16
 
+	// The folder may be an alias: filepath.Walk does not follow a symbolic link given as its root, and the count
+	// would be 0 although the folder download sends the items of the folder the alias stands for.
+	if resolved, err := filepath.EvalSymlinks(filePath); err == nil {
+		filePath = resolved
+	}
+
 	// Walk the directory and count items
 	err := filepath.Walk(filePath, func(path string, info os.FileInfo, err error) error {
 		if err != nil {
